@@ -22,6 +22,7 @@ RULE = (
     "name is in unknown_tags; every block tag with more openers than end tags is in unclosed_tags. Non-trivial = sequence with >= 2 tags "
     "or a template that parses in strict mode, distinct by source."
     " Rounds 5-6 added enumerated families: raw / comment / doc with every hyphen combination around tag-like text; the end tag of an end tag."
+    " Round 7 added: template_comments environments with markup inside {# #}."
 )
 REQUIRED = [
     ("liquid/analyze_tags.py", "TagAnalysis._audit_tags"),
